@@ -208,6 +208,9 @@ func (ch c08) Run(c *core.Ctx) {
 		if i%3 == 1 {
 			ch.interrupted(c, env, rng, c08gen(rng, false))
 		}
+		if i%5 == 2 {
+			ch.textValues(c, env, rng)
+		}
 	}
 }
 
@@ -679,4 +682,76 @@ func (ch c08) runCase(c *core.Ctx, env *hs.Env, k c08case, idx int) {
 	if idx < 2 {
 		c.Sample(map[string]any{"case": k.sig(), "reply": trim(replyKinds(out), 200)})
 	}
+}
+
+// textValues: the statement hands its values over as text (a Go string holding the type's text form - what
+// a handler that relays rows from elsewhere has in hand) while the Bind asks for some columns in binary.
+// The server may refuse such a row (the pinned tree does where it has no plan to encode a string in binary);
+// a DataRow that does arrive is encoded the way the portal's description announces.
+func (ch c08) textValues(c *core.Ctx, env *hs.Env, rng *core.Rng) {
+	oids := []uint32{pg.OIDInt2, pg.OIDInt4, pg.OIDInt8, pg.OIDFloat8, pg.OIDBool, pg.OIDUUID, pg.OIDTimestamp, pg.OIDDate, pg.OIDText}
+	n := 1 + rng.Intn(3)
+	var cols wire.Columns
+	var typed, row []any
+	var colOIDs []uint32
+	var rf []int16
+	for j := 0; j < n; j++ {
+		o := core.Pick(rng, oids)
+		v := genValue(rng, o)
+		colOIDs = append(colOIDs, o)
+		cols = append(cols, wire.Column{Name: fmt.Sprintf("c%d", j), Oid: oid.Oid(o), Width: -1})
+		typed = append(typed, v)
+		if rng.Intn(3) == 0 {
+			row = append(row, v) // handed over as a typed value, next to the ones handed over as text
+		} else {
+			row = append(row, string(pg.Encode(o, 0, v)))
+		}
+		rf = append(rf, int16(rng.Intn(3)/2+rng.Intn(2))%2)
+	}
+	if rng.Intn(3) == 0 {
+		rf = []int16{1}
+	}
+	st := &hs.Stmt{ID: "s", Params: []oid.Oid{}, Cols: cols, Ops: []hs.Op{{K: "row", Vals: row}, {K: "complete", Tag: "SELECT 1"}}}
+	sess := &hs.Sess{Progs: map[string]*hs.Prog{"q": {Stmts: []*hs.Stmt{st}}}}
+	cl := hs.NewClient(env.Dial(sess))
+	if err := cl.StartupOK("u"); err != nil {
+		c.Violate("startup", "startup failed", err.Error(), nil)
+		return
+	}
+	in := append(pg.Parse("", "q", nil), pg.Bind("", "", nil, nil, rf)...)
+	in = append(append(append(in, pg.Describe('P', "")...), pg.Execute("", 0)...), pg.Sync()...)
+	out, _ := cl.Step(in)
+	cl.Finish()
+	msgs, _, err := pg.ParseStream(out)
+	cs := map[string]any{"workload": "values handed over as text", "oids": colOIDs, "result_formats": rf}
+	kinds := pg.Types(msgs)
+	if err != nil || !strings.HasPrefix(kinds, "12T") {
+		c.Violate("reply", "Parse/Bind/Describe of a statement with text-valued rows not answered 1 2 T", fmt.Sprintf("%v %s", err, replyKinds(out)), cs)
+		return
+	}
+	c.Count("rows_handed_over_as_text", 1)
+	desc := msgs[2]
+	for _, m := range msgs[3:] {
+		if m.T != 'D' {
+			continue
+		}
+		c.Count("rows_handed_over_as_text_delivered", 1)
+		for j := range colOIDs {
+			if j >= len(m.Fields) || j >= len(desc.Cols) {
+				c.Violate("result-encoding", "DataRow of a text-valued row has the wrong number of fields", replyKinds(out), cs)
+				return
+			}
+			wf := desc.Cols[j].Format
+			if wf != fmtFor(rf, j) {
+				c.Violate("result-format", "portal Describe format code wrong (text-valued row)", fmt.Sprintf("column %d announced %d want %d", j, wf, fmtFor(rf, j)), cs)
+				return
+			}
+			got, derr := pg.Decode(colOIDs[j], wf, m.Fields[j])
+			if want := pg.Canon(colOIDs[j], typed[j]); derr != nil || got != want {
+				c.Violate("result-encoding", fmt.Sprintf("a value handed over as text arrives in another encoding than announced (oid=%d fmt=%d)", colOIDs[j], wf), fmt.Sprintf("column %d: decodes to %s (%v), the value is %s; bytes %s", j, trim(got, 100), derr, trim(want, 100), hexs(m.Fields[j])), cs)
+				return
+			}
+		}
+	}
+	c.Eval(fmt.Sprintf("text values %v %v", colOIDs, rf), true)
 }
